@@ -531,6 +531,8 @@ func shFailedHandshake(rep *Report) {
 		scfg := &tls.Config{Certificates: []tls.Certificate{p.server["valid"]}, ClientCAs: p.pool}
 		kmip.DefaultServerTLSConfig(scfg)
 		srv := &kmip.Server{TLSConfig: scfg, Log: log.New(io.Discard, "", 0), ReadTimeout: 300 * time.Millisecond, WriteTimeout: 300 * time.Millisecond}
+		var sessAuth int32
+		srv.SessionAuthHandler = func(net.Conn) (interface{}, error) { atomic.AddInt32(&sessAuth, 1); return nil, nil }
 		tcp, err := net.Listen("tcp", "127.0.0.1:0")
 		if err != nil {
 			continue
@@ -584,6 +586,10 @@ func shFailedHandshake(rep *Report) {
 		select {
 		case <-served:
 		case <-time.After(2 * time.Second):
+		}
+		if n := atomic.LoadInt32(&sessAuth); n > 0 {
+			rep.Violations = append([]interface{}{map[string]interface{}{"kind": "shutdown", "what": "the session-authentication callback ran for a peer whose TLS handshake never completed (Shutdown came while the handshake was pending or after it had failed)",
+				"peer": kind, "calls": n}}, rep.Violations...)
 		}
 	}
 }
